@@ -23,7 +23,31 @@ def make_spec(g, allow):
         second.append((name, cs))
     return dict(cfgs=h.cfgs, execs=h.execs, second=second, flags=set(h.flags), orphan=r.random() < 0.5,
                 mode2=r.choice([(False, ''), (False, 'true'), (True, ''), (False, 'clean')]),
-                skips=r.randint(0, 4), sort=r.choice(['-', '0', '1']))
+                skips=r.randint(0, 4), skip_names=skip_sequence(r), sort=r.choice(['-', '0', '1']))
+
+
+# Tests that call snaps.Skip*: every CALL counts, whoever made it and whatever was skipped before -
+# the same test again (-count=N), a subtest after its parent (parallel subtests resume after the parent
+# returned; or -count=2: run 1 skips the parent after its children, run 2 skips the children again), a
+# parent after its subtests, names that merely extend another (`TestS0` / `TestS01`, `x` / `x#01`)
+SKIP_FAMILY = [b'TestSkipped0', b'TestSkipped0/child', b'TestSkipped0/child/deep', b'TestSkipped0/child#01', b'TestSkipped0/other',
+               b'TestSkipped01', b'TestSkipped1', b'TestSkipped1/sub', b'TestSkipped', b'TestSkipped/0']
+
+
+def skip_sequence(r):
+    k = r.random()
+    if k < 0.25:
+        return None                     # the two names of the older worlds, alternating
+    if k < 0.5:
+        # a parent, then its descendants (and the whole round once more)
+        fam = [n for n in SKIP_FAMILY if n == b'TestSkipped0' or n.startswith(b'TestSkipped0/')]
+        seq = fam[:r.randint(2, len(fam))]
+        return seq * r.choice([1, 1, 2])
+    if k < 0.7:
+        # children first, the parent last; then the next round skips the children again
+        seq = [b'TestSkipped1/sub', b'TestSkipped0/child/deep', b'TestSkipped0/child', b'TestSkipped0', b'TestSkipped1']
+        return seq * r.choice([1, 2, 3])
+    return [r.choice(SKIP_FAMILY) for _ in range(r.randint(1, 8))]
 
 
 def classify(line):
@@ -60,10 +84,14 @@ def render(tag, spec):
     for name, calls in spec['second']:
         texec += 1
         call_idx += emit_exec(w, texec, name, calls)
-    for s in range(spec['skips']):
+    names = spec.get('skip_names')
+    if names is None:
+        names = [b'TestSkipped%d' % (s % 2) for s in range(spec['skips'])]
+    nskips = len(names)
+    for s, nm in enumerate(names):
         texec += 1
         # the same test may be skipped more than once in a process (-count=N): every call counts
-        w.add('begin %d %s' % (texec, core.hx(b'TestSkipped%d' % (s % 2))))
+        w.add('begin %d %s' % (texec, core.hx(nm)))
         w.add('skip %d %s' % (texec, ['skip', 'skipf', 'skipnow'][s % 3]))
 
     def oracle(line, raw, ww):
@@ -78,8 +106,8 @@ def render(tag, spec):
             tally[c] += 1
         m = re.match(r'events e=(\d+) a=(\d+) u=(\d+) p=(\d+) s=(\d+)', raw)
         got = dict(failed=int(m.group(1)), added=int(m.group(2)), updated=int(m.group(3)), passed=int(m.group(4)))
-        if got != tally or int(m.group(5)) != spec['skips']:
-            return 'counters %r skipped=%s, outcomes tallied from the test log %r skipped=%d' % (got, m.group(5), tally, spec['skips'])
+        if got != tally or int(m.group(5)) != nskips:
+            return 'counters %r skipped=%s, outcomes tallied from the test log %r, snaps.Skip* calls=%d' % (got, m.group(5), tally, nskips)
         ww.meta['tally'] = tally
         return None
     w.add('events', ('counters-equal-outcomes', oracle))
@@ -93,7 +121,7 @@ def render(tag, spec):
         for verb in ('passed', 'failed', 'added', 'updated', 'skipped'):
             mm = re.search(r'(\d+) snapshots? %s\n' % verb, text)
             nums[verb] = int(mm.group(1)) if mm else 0
-        want = dict(tally, skipped=spec['skips'])
+        want = dict(tally, skipped=nskips)
         if nums != want:
             return 'summary shows %r, outcomes were %r' % (nums, want)
         if sum(want.values()) == 0 and 'Snapshot Summary' in text and 'obsolete' not in text and 'removed' not in text:
@@ -117,6 +145,15 @@ def run(ctx):
     g = Gen(ctx.seed * 1000003 + 20)
     n = 150 if ctx.tier == 'quick' else 4000
     worlds = [render('c20-%d' % i, make_spec(g, ('nosafn',))) for i in range(n)]
+    # skip sequences at the boundary: parent then child, child then parent, a second round (-count=2),
+    # names that extend one another without being related
+    for k, seq in enumerate([[b'TestSkipped0', b'TestSkipped0/child'], [b'TestSkipped0/child', b'TestSkipped0'],
+                             [b'TestSkipped0/child', b'TestSkipped0', b'TestSkipped0/child', b'TestSkipped0'],
+                             [b'TestSkipped0', b'TestSkipped0/child', b'TestSkipped0/child/deep', b'TestSkipped0/child#01'],
+                             [b'TestSkipped', b'TestSkipped0', b'TestSkipped01', b'TestSkipped/0'], [b'TestSkipped0'] * 5]):
+        sp = make_spec(g, ('nosafn',))
+        sp['skip_names'] = seq
+        worlds.append(render('c20-skipseq-%d' % k, sp))
     run_suite(ctx, 'match.outcomes', worlds, known=known, chunk=200)
     # a snapshot that cannot be written (its directory lies under a regular file): still exactly one
     # outcome - one failure - per call.  No model: OS error texts are not modelled.
